@@ -247,7 +247,11 @@ impl Executor {
         let _ = std::fs::remove_dir_all(&dir);
         std::fs::create_dir_all(&dir).map_err(|e| format!("{}: {e}", dir.display()))?;
         let r = self.run_in(scenario, &dir);
-        remove_run_dir(&dir);
+        if std::env::var_os("VERIF_KEEP_RUNS").is_some() {
+            eprintln!("kept run directory {}", dir.display());
+        } else {
+            remove_run_dir(&dir);
+        }
         r
     }
 
@@ -304,13 +308,13 @@ impl Executor {
         let mut digest = refcodec::util::Fnv::default();
         let mut trace = Vec::new();
         let mut garbled = false;
-        for line in raw.split(|b| *b == b'\n') {
-            if line.is_empty() {
-                continue;
-            }
+        let lines: Vec<&[u8]> = raw.split(|b| *b == b'\n').filter(|l| !l.is_empty()).collect();
+        for (i, line) in lines.iter().enumerate() {
             digest.update(line);
             match serde_json::from_slice::<Event>(line) {
                 Ok(ev) => trace.push(ev),
+                // a torn LAST record: the process ended (exit, abort, kill) while a record was being written
+                Err(_) if i + 1 == lines.len() && !raw.ends_with(b"\n") => {}
                 Err(_) => garbled = true,
             }
         }
@@ -430,6 +434,8 @@ pub struct GenHistory {
     pub gen: Option<usize>,
     pub stdin_accepted: Vec<u8>,
     pub stdin_known: bool,
+    /// the compiler never closed this stdin: the capture was taken when the compiler exited
+    pub stdin_open_at_exit: bool,
     /// errno of the first failed write to its stdin other than EINTR
     pub stdin_error: Option<i32>,
     pub collected: bool,
@@ -463,10 +469,11 @@ pub fn generator_histories(trace: &[Event]) -> Vec<GenHistory> {
                     }
                 }
             }
-            Ev::StdinClose { gen, hex, .. } => {
+            Ev::StdinClose { gen, hex, at_exit, .. } => {
                 if let Some(i) = by_gen.get(gen) {
                     out[*i].stdin_accepted = refcodec::util::unhex(hex).unwrap_or_default();
                     out[*i].stdin_known = true;
+                    out[*i].stdin_open_at_exit = *at_exit;
                 }
             }
             Ev::Wait { gen, op, status, stdout_hex, stderr_hex, result, .. } => {
@@ -499,6 +506,12 @@ pub fn generator_histories(trace: &[Event]) -> Vec<GenHistory> {
         }
     }
     out
+}
+
+/// True if the compiler ran more than one real thread: its execution is then only deterministic on a best-effort
+/// basis (the shipped compiler is single-threaded and never gets here).
+pub fn threads_seen(trace: &[Event]) -> bool {
+    trace.iter().any(|e| matches!(&e.kind, Ev::End { max_threads, .. } if *max_threads > 1))
 }
 
 pub fn steps_of(trace: &[Event]) -> u64 {
